@@ -44,6 +44,10 @@ KEYWORDS = ["type", "match", "fn", "loop", "move", "ref", "use", "where", "async
 WORDS = ["id", "name", "count", "value", "items", "flags", "size", "owner", "path", "addr", "when",
          "state", "kind", "note", "data", "level", "tags", "unit", "span", "mode", "index", "peer"]
 DOC_SAFE = "abcdefghijklmnopqrstuvwxyzABCDEFGHIJKLMNOPQRSTUVWXYZ0123456789      .,'-"
+# typographic punctuation and spaces of U+2000..U+206F (without the bidi controls rustc rejects in
+# comments and without U+2028/U+2029), U+0085, U+00A0, U+FEFF, and 2-/3-/4-byte neighbours
+DOC_UNI = ("\u2013\u2014\u2018\u2019\u201c\u201d\u2022\u2026\u2030\u2032\u2039\u203a\u203c\u2002\u2009\u200b\u2010\u2000\u203f\u2040\u206f"
+           "\u0085\u00a0\ufeff\u00e9\u00df\u07ff\u0800\u1fff\u2070\u20ac\ufffd\U0001f600\U00010000")
 DOC_FULL = DOC_SAFE + ":;()[]{}?!#*/<>=+&|@$%^~`\"\\\t_"
 
 
@@ -120,13 +124,18 @@ class Gen:
 
     # ------------------------------------------------------------ names and docs
     def docs(self, full):
+        """0..3 doc lines. About a third of the lines carry non-ASCII text: typographic punctuation from
+        U+2000..U+206F (what real `///` docs contain), U+0085 / U+00A0 / U+FEFF, and 2-, 3- and 4-byte
+        neighbours; blank `///` lines occur in the middle and at the end."""
         rng = self.rng
-        k = rng.choice([0, 0, 0, 1, 1, 2])
+        k = rng.choice([0, 0, 0, 1, 1, 2, 3])
         out = []
         for _ in range(k):
             n = rng.choice([0, 3, 8, 20, 40])
             alpha = DOC_FULL if (full and rng.random() < 0.5) else DOC_SAFE
-            body = "".join(rng.choice(alpha) for _ in range(n)).rstrip()
+            if rng.random() < 0.35:
+                alpha = alpha + DOC_UNI * 3
+            body = "".join(rng.choice(alpha) for _ in range(n)).rstrip(" \t")
             form = rng.choice(["sl", "sl", "sl_nospace", "attr"])
             if form == "sl":
                 out.append({"text": " " + body if body else "", "form": "sl"})
@@ -137,6 +146,8 @@ class Gen:
                 out.append({"text": body, "form": "sl"})
             else:
                 out.append({"text": body, "form": "attr"})
+        if k >= 2 and rng.random() < 0.3:
+            out[rng.choice([k // 2, k - 1])] = {"text": "", "form": "sl"}       # a blank `///` line
         return out
 
     def field_names(self, k, allow_raw):
